@@ -890,9 +890,9 @@ func first(a, _ []byte) []byte { return a }
 //@   loop 1 (q)
 //@     invariant stackOK(q)
 //@   loop 2 (i)
-//@     invariant stackOK(q)
+//@     invariant stackOK(q) && 0 - 1 <= i && i <= 4
 //@   loop 3 (i)
-//@     invariant stackOK(q)
+//@     invariant stackOK(q) && 0 - 1 <= i && i <= 16
 //@   loop 4 (i)
 //@     invariant stackOK(q) && 0 - 1 <= i && i <= 256
 //@   loop 5 (i)
